@@ -998,13 +998,17 @@ func (p *Peer) deleteReplicatorRetryAndDocs(ctx context.Context, peerID string) 
 			break
 		}
 
-		err = txn.Peerstore().Delete(ctx, keys.NewReplicatorRetryDocIDKey(peerID, string(iter.Key())).Bytes())
+		err = txn.Peerstore().Delete(ctx, iter.Key())
 		if err != nil {
 			return errors.Join(err, iter.Close())
 		}
 	}
 
-	return iter.Close()
+	err = iter.Close()
+	if err != nil {
+		return err
+	}
+	return txn.Commit(ctx)
 }
 
 func closeQueryResults(iter corekv.Iterator) {
